@@ -7,7 +7,9 @@ def optimize_task_graph_for_dask_distributed(client, graph):
     optimized = {key: _scatter_computation(Future, client, value) for key, value in graph.items()}
     from dask.optimization import fuse
 
-    fused = fuse(optimized)[0]
+    # NOTE: No renaming of fused keys: a name made up by fuse (e.g. 'fit-results') can be equal to a
+    # str given as static task input, which dask would then read as a reference to the fused task
+    fused = fuse(optimized, rename_keys=False)[0]
     return fused
 
 
